@@ -592,14 +592,17 @@ func CheckDuplicateProofs(proofs Proofs) bool {
 	return false
 }
 
+// CheckDuplicateBlindedMessages reports whether two of the blinded messages have the same B_.
+// Signatures are stored by B_, so messages that share it are duplicates even if
+// another field (amount, witness) differs.
 func CheckDuplicateBlindedMessages(bms BlindedMessages) bool {
-	bmMap := make(map[BlindedMessage]bool)
+	bmMap := make(map[string]bool)
 
 	for _, bm := range bms {
-		if bmMap[bm] {
+		if bmMap[bm.B_] {
 			return true
 		} else {
-			bmMap[bm] = true
+			bmMap[bm.B_] = true
 		}
 	}
 
